@@ -44,6 +44,16 @@ Proof.
     constructor; [discriminate|constructor].
 Qed.
 
+(* a stream without the words FOR and EQU has no count lines to examine *)
+Lemma counts_modelled_plain toks :
+  Forall (fun t => t_typ t = tokText -> lower_is (t_val t) "for" = false /\ lower_is (t_val t) "equ" = false) toks ->
+  counts_modelled toks None = true.
+Proof.
+  induction toks as [|t r IH]; intros H; [reflexivity|]. inversion H as [|x y Ht Hr]; subst. cbn [counts_modelled].
+  destruct (t_typ t) eqn:E; cbn [count_line_ok andb]; try (apply IH; exact Hr).
+  destruct (Ht eq_refl) as [F1 F2]. rewrite F1, F2. cbn [orb]. apply IH. exact Hr.
+Qed.
+
 (* the assembler half of C09, for the canonical layout *)
 Theorem asm_canon cfg sg code start :
   validate cfg = true -> c_size cfg <= 2147483648 -> wf_code cfg code ->
@@ -52,6 +62,7 @@ Theorem asm_canon cfg sg code start :
 Proof.
   intros Hv Hm Hw Hs Hl. unfold compile_warrior. rewrite lex_canon.
   destruct (canon_toks_facts (c_mode cfg =? 0) sg (c_size cfg) code start) as [C P].
+  rewrite (counts_modelled_plain _ P). cbn [negb].
   destruct (scan_input_plain _ C P) as [syms Es].
   change (pass_loop cfg (S max_for_passes) (canon_toks (c_mode cfg =? 0) sg (c_size cfg) code start))
     with (match scan_input (canon_toks (c_mode cfg =? 0) sg (c_size cfg) code start) with
